@@ -207,6 +207,9 @@ class Ref:
         self.kind = funcs_kind
         self.log_enabled = log_enabled
         self.depth = 0
+        self.files = {}           # url -> canonical statement list (None / missing: cannot be fetched)
+        self.fetched = []
+        self.resolve = lambda base, url: url      # how an include path is resolved against the including file (C17 supplies one)
 
     # ---------------------------------------------------------------- budget
     def tick(self):
@@ -411,6 +414,20 @@ class Ref:
             return type_name(a[0] if n else None) if n <= 1 else None
         if name == 'systemCompare':
             return compare(a[0] if n else None, a[1] if n > 1 else None) if n <= 2 else None
+        if name == 'arraySort':
+            if n in (1, 2) and isinstance(a[0], list) and (n == 1 or a[1] is None or type_name(a[1]) == 'function'):
+                import functools
+                if n == 1 or a[1] is None:
+                    a[0].sort(key=functools.cmp_to_key(compare))
+                else:
+                    def cmpf(x, y):
+                        r = self.call_value(a[1], [x, y])
+                        if not is_num(r):
+                            raise Unsupported('compare function result is not a number')
+                        return r
+                    a[0].sort(key=functools.cmp_to_key(cmpf))      # the host's sort: same comparison sequence as the implementation's
+                return a[0]
+            return None
         if name in ('mathMax', 'mathMin'):
             best = None
             for i, v in enumerate(a):
@@ -420,7 +437,7 @@ class Ref:
         raise Unsupported('library function ' + name)
 
     # ---------------------------------------------------------------- jump-level statement lists (canonical statements)
-    def exec_jump(self, stmts, loc):
+    def exec_jump(self, stmts, loc, base=None):
         pc = 0
         while pc < len(stmts):
             s = stmts[pc]
@@ -445,6 +462,18 @@ class Ref:
                 pass
             elif k == 'function':
                 self.g[s[1]] = RefFn(s[1], s[2], s[4], s[5], 'jump')
+            elif k == 'include':
+                for url, system in s[1]:
+                    if system:
+                        raise Unsupported('system include')
+                    loc_url = self.resolve(base, url)
+                    self.fetched.append(loc_url)
+                    model = self.files.get(loc_url)
+                    if model is None:
+                        raise RtError(f'Include of "{loc_url}" failed')
+                    if isinstance(model, dict):
+                        raise Unsupported('include of a text that does not parse')
+                    self.exec_jump(model, None, loc_url)       # global scope; its `return` ends only the included script
             else:
                 raise Unsupported(k)
             pc += 1
